@@ -21,7 +21,7 @@ import os
 import shutil
 import zipfile
 
-from srctools.filesys import (
+from srctools.filesys import (get_filesystem,
     VirtualFileSystem, ZipFileSystem, VPKFileSystem, RawFileSystem, FileSystemChain,
 )
 from srctools.vpk import VPK
@@ -319,6 +319,20 @@ def backend_battery(acc: core.Acc, names: list, workdir: str, only: dict | None 
             continue
         path = materialise(os.path.join(workdir, b), b, files)
         systems[b] = open_fs(b, path, files)
+        if b in ('zip', 'vpk', 'raw') and (not only or only['op'] == 'factory'):
+            # the factory function picks the same class, and iterating a file system lists what walking its root lists
+            acc.evaluations += 1
+            try:
+                via = get_filesystem(path)
+                a_list = sorted(f.path for f in via)
+                b_list = sorted(f.path for f in systems[b].walk_folder(''))
+                if type(via) is not type(systems[b]) or a_list != b_list:
+                    acc.fail('factory_differs', {'part': 'backend', 'names': names, 'backend': b, 'op': 'factory', 'base': ''},
+                             f'file set {names}: get_filesystem({os.path.basename(path)!r}) is a {type(via).__name__} listing {a_list}; '
+                             f'{type(systems[b]).__name__}(path) lists {b_list}', backend=b, op='factory', cause='factory')
+            except Exception as exc:  # noqa: BLE001
+                acc.fail('factory_differs', {'part': 'backend', 'names': names, 'backend': b, 'op': 'factory', 'base': ''},
+                         f'file set {names}: get_filesystem / iteration raised {type(exc).__name__}: {exc}', backend=b, op='factory', cause='factory')
 
     # ---- a leading separator: not a spelling the property names, so no answer is prescribed - but every archive-like
     # backend has to give the same one (the directory backend treats it as an absolute path and refuses it)
